@@ -10,7 +10,7 @@ COMMON_T = [
 
 PROPS = {
     "C01": {
-        "units": ["ident", "idna", "x509", "storage", "issue", "texts", "cfgwire", "evloop"],
+        "units": ["ident", "idna", "x509", "storage", "issue", "texts", "cfgwire", "evloop", "keys"],
         "design_ref": "DESIGN.md section 5 C01",
         "technique": "Verus function contracts: normalisation label by label, newOrder payload element by element, CSR through a ghost view of the OpenSSL request builder",
         "text": "Deductive proof that configured DNS identifiers are stored as lower-case A-labels label by label (wildcard label kept) and IP "
@@ -56,7 +56,7 @@ PROPS = {
         ],
     },
     "C11": {
-        "units": ["account", "acctproto", "acctstore", "texts", "storage", "cfgwire", "issue", "http"],
+        "units": ["account", "acctproto", "acctstore", "texts", "storage", "cfgwire", "issue", "http", "acctpayload"],
         "design_ref": "DESIGN.md section 5 C11",
         "technique": "Verus function contracts over a ghost record of what the CA holds; signing-key preconditions on the account requests",
         "text": "Deductive proof that synchronize registers only when no account URL is stored or the external binding changed, otherwise sends at "
@@ -180,7 +180,7 @@ PROPS = {
         ],
     },
     "C04": {
-        "units": ["jws", "http", "keys", "issue", "acctproto", "texts", "account", "cfgwire"],
+        "units": ["jws", "http", "keys", "issue", "acctproto", "texts", "account", "cfgwire", "acctpayload"],
         "design_ref": "DESIGN.md section 5 C04",
         "technique": "Verus function contracts: JWS structure as a spec predicate over uninterpreted base64url/serialisation/signature relations; nonce and URL binding as preconditions of the transmission",
         "text": "Deductive proof that encode_jwk/encode_kid/encode_kid_mac produce the flattened JWS of RFC 7515 with exactly the header "
